@@ -858,6 +858,7 @@ pub(crate) mod verif_mpmc {
         #[kani::stub(alloc::alloc::alloc, crate::verif::common::stub_alloc)]
         #[kani::stub(alloc::alloc::dealloc, crate::verif::common::stub_dealloc)]
         #[kani::stub(alloc::alloc::realloc, crate::verif::common::stub_realloc)]
+        #[kani::stub(alloc::fmt::format, crate::verif::common::stub_format)]
         fn clear_noalloc_c18() { let k = clear_noalloc(&mut KaniSrc, P18 | P08); kani::cover!(k == 2, "W clear: two values buffered"); }
         #[kani::proof]
         #[kani::unwind(4)]
@@ -905,18 +906,28 @@ pub(crate) mod verif_mpmc {
         #[kani::stub(alloc::alloc::alloc, crate::verif::common::stub_alloc)]
         #[kani::stub(alloc::alloc::dealloc, crate::verif::common::stub_dealloc)]
         #[kani::stub(alloc::alloc::realloc, crate::verif::common::stub_realloc)]
+        #[kani::stub(alloc::fmt::format, crate::verif::common::stub_format)]
+        fn hist_c18_c1_sr_p3_n5() { let _ = hist::<NoopLock, ArrayBuf<Tag, [Tag; 1]>, _>(&mut KaniSrc, 1 | (3 << 4) | ((OP_SEND | OP_RECV | OP_DROP_S | OP_DROP_R) << 12), 1, 5, P18); }
+        #[kani::proof]
+        #[kani::unwind(6)]
+        #[kani::stub(alloc::alloc::alloc, crate::verif::common::stub_alloc)]
+        #[kani::stub(alloc::alloc::dealloc, crate::verif::common::stub_dealloc)]
+        #[kani::stub(alloc::alloc::realloc, crate::verif::common::stub_realloc)]
+        #[kani::stub(alloc::fmt::format, crate::verif::common::stub_format)]
         fn hist_c18_c1_sr_p5_n5() { let _ = hist::<NoopLock, ArrayBuf<Tag, [Tag; 1]>, _>(&mut KaniSrc, 1 | (5 << 4) | ((OP_SEND | OP_RECV | OP_DROP_S | OP_DROP_R) << 12), 1, 5, P18); }
         #[kani::proof]
         #[kani::unwind(6)]
         #[kani::stub(alloc::alloc::alloc, crate::verif::common::stub_alloc)]
         #[kani::stub(alloc::alloc::dealloc, crate::verif::common::stub_dealloc)]
         #[kani::stub(alloc::alloc::realloc, crate::verif::common::stub_realloc)]
+        #[kani::stub(alloc::fmt::format, crate::verif::common::stub_format)]
         fn hist_c18_c0_cl_p3_n5() { let _ = hist::<NoopLock, ArrayBuf<Tag, [Tag; 0]>, _>(&mut KaniSrc, 0 | (3 << 4) | ((OP_SEND | OP_RECV | OP_CLOSE | OP_DROP_R) << 12), 0, 5, P18); }
         #[kani::proof]
         #[kani::unwind(5)]
         #[kani::stub(alloc::alloc::alloc, crate::verif::common::stub_alloc)]
         #[kani::stub(alloc::alloc::dealloc, crate::verif::common::stub_dealloc)]
         #[kani::stub(alloc::alloc::realloc, crate::verif::common::stub_realloc)]
+        #[kani::stub(alloc::fmt::format, crate::verif::common::stub_format)]
         fn hist_c18_c2_tr_p0_n4() { let _ = hist::<NoopLock, ArrayBuf<Tag, [Tag; 2]>, _>(&mut KaniSrc, 2 | ((OP_SEND | OP_RECV | OP_TRY_SEND | OP_TRY_RECV) << 12), 2, 4, P18); }
         type B0 = ArrayBuf<Tag, [Tag; 0]>;
         type B1 = ArrayBuf<Tag, [Tag; 1]>;
